@@ -22,6 +22,8 @@ import Nq.Lemmas.C07Flags
 import Nq.Lemmas.C07Strict
 import Nq.Lemmas.C07Qmqp2
 import Nq.Lemmas.C07Session
+import Nq.Lemmas.C07Smtp
+import Nq.Lemmas.C07SmtpBytes
 
 namespace Nq.Props.C07
 open Nq Nq.QmailC Nq.Received Nq.Netstring
@@ -1269,4 +1271,214 @@ example : date822 (datetimeTai 1758844800) =
 example : Nq.Datetime.isDecimal 2025 [50, 48, 50, 53] := by
   refine ⟨by decide, by decide, by decide, by decide⟩
 
+/-! ## 16. the whole SMTP connection (session 4) -/
+
+section smtp_session
+open Nq.SmtpC07 Nq.SmtpSession Nq.SmtpPolicy
+
+/-- **C07_smtp_session** (session-level composition for SMTP, on the pattern of `C07_qmtp_session`).  `SmtpC07.run` is the whole
+    connection: C08's command loop (`SmtpSession.readLine` / `parseLine` / `sstep`: commands(), smtp_helo/ehlo/rset/mail/rcpt/quit, addrparse,
+    badmailfrom, rcpthosts / RELAYCLIENT) with every DATA that passes its two gates handed to C07's `Smtp.data` running on the model of
+    qmail.c, the k-th run of the queue program ending as `ends` scripts (each honouring the interface), the write-fault counter threaded
+    from run to run.  For EVERY byte stream from the client (any number of transactions, RSET, repeated MAIL, refused RCPT, pipelined
+    garbage, the stream ending anywhere = the client disconnecting there), every write-fault schedule and every scripted behaviour of the
+    queue program:
+    (1) the commands with their outcomes are a `SmtpSession.trace`, so C08's theorems about traces apply to the composed connection;
+    (2) a command line that starts no queue run hands nothing to the queue and is never answered with the acknowledgement
+        (`Reply.accepted`, the only reply rendered as `250 ok <time> qp <pid>`);
+    (3) for a queue run `t` started by a DATA: the events before it end in an OPEN TRANSACTION — a MAIL answered 250 whose parsed address is
+        `t.mailfrom`, followed by events none of which is HELO / EHLO / RSET / another accepted MAIL / a DATA that got past its gates — and
+        `t.rcpts` are the stored forms of exactly the RCPTs answered 250 in that stretch, in order, at least one (`SmtpPolicy.OpenTxn`,
+        `acceptedRcpt`; when a RCPT is answered 250: `C07_smtp_session_rcpt`);
+    (4) if t's DATA is terminated: the bytes written are `354 go ahead` followed by `Smtp.reply` computed from t's OWN `qmail_close` answer;
+        that reply begins `250 ` iff the answer is "" iff the event carries `Reply.accepted`; and then it is exactly
+        `250 ok <now> qp <t.pid>`, t's queue program exited 0 without crashing, had read on descriptor 0 the Received field (with the HELO
+        argument in force) ++ the body as C05's decoder `dblast` yields it from the bytes behind THIS DATA line, and on descriptor 1 the
+        envelope of `t.mailfrom` and `t.rcpts`; conversely a complete envelope with exit 0 forces the acknowledgement;
+    (5) if t's DATA is not terminated (the client is gone, or a bare LF): it is the last step of the connection, nothing is submitted or
+        acknowledged, the bytes written are `354 go ahead` (plus the 451 of straynewline()), and t's queue program finds no complete
+        envelope on descriptor 1.
+    Not stated here: that a proper prefix of a connection runs the same steps up to the cut (the statement is for every stream, hence for
+    every prefix, but the two runs are not related); that no OTHER reply text looks like an acknowledgement (it depends on
+    control/smtpgreeting; driver oracle `stray-ack`); `qmail_open` failing (pipe/fork errors: not modelled, never injected). -/
+theorem C07_smtp_session (cfg : SmtpC07.Cfg) (w : Option Nat) (ends : List QEnd) (pids : List Nat) (inp : Bytes)
+    (hends : ∀ e ∈ ends, TextOK e.text ∨ e.text.length ≤ 2) :
+    (SmtpC07.run cfg w ends pids inp).map (·.ev) =
+      trace cfg.pol {} ((SmtpC07.run cfg w ends pids inp).map (·.ev.1)) ∧
+    ∀ (pre : List Step) (st : Step) (post : List Step), SmtpC07.run cfg w ends pids inp = pre ++ st :: post →
+      match st.txn with
+      | none => st.ev.2.submit = none ∧ Reply.accepted ∉ st.ev.2.replies
+      | some t =>
+        (∃ mid, OpenTxn cfg.pol (pre.map (·.ev)) t.mailfrom mid ∧ t.rcpts = mid.filterMap (acceptedRcpt cfg.pol) ∧ t.rcpts ≠ []) ∧
+        ((t.d cfg).stop = none →
+          st.ev.2.replies = [.go, closeReply (t.qqx cfg)] ∧
+          st.ev.2.submit = some ⟨t.mailfrom, t.rcpts, t.qqx cfg⟩ ∧
+          st.bytes cfg = Nq.Gen.txt_data_go ++ t.reply cfg ∧
+          ((t.reply cfg).take 4 = [50, 53, 48, 32] ↔ t.qqx cfg = []) ∧
+          (Reply.accepted ∈ st.ev.2.replies ↔ t.qqx cfg = []) ∧
+          (t.qqx cfg = [] →
+            t.reply cfg = ackLine cfg.pol.now t.pid ∧
+            (t.q cfg).msgPipe = received pSMTP cfg.peer (Smtp.fakehelo cfg.peer t.helo) cfg.pol.now ++ (t.d cfg).stored ∧
+            Nq.SmtpIn.dblast t.stream = .accepted (t.d cfg).stored (t.d cfg).rest ∧
+            (t.q cfg).envPipe = envelope (cstr t.mailfrom) (t.rcpts.map cstr) ∧
+            t.e.exit = 0 ∧ t.e.crashed = false) ∧
+          (Committed (t.q cfg) t.e → t.qqx cfg = [])) ∧
+        ((t.d cfg).stop ≠ none →
+          post = [] ∧ st.ev.2.submit = none ∧ Reply.accepted ∉ st.ev.2.replies ∧
+          envComplete (t.q cfg).envPipe = false ∧
+          (st.bytes cfg = Nq.Gen.txt_data_go ∨ st.bytes cfg = Nq.Gen.txt_data_go ++ Nq.Gen.txt_straynewline)) := by
+  refine ⟨runFuel_is_trace cfg _ _ _ _ _ _ _, fun pre st post hr => ?_⟩
+  obtain ⟨s', hinv, hat⟩ := runFuel_split cfg (fun e => TextOK e.text ∨ e.text.length ≤ 2) (Or.inr (by decide))
+    pre _ {} [] none w ends pids inp st post hends (Nq.Lemmas.Smtp.inv_init cfg.pol) hr
+  simp only [List.nil_append] at hinv
+  unfold StepAt at hat
+  cases htx : st.txn with
+  | none =>
+    simp only [htx] at hat ⊢
+    obtain ⟨v, arg, hg, hev⟩ := hat
+    rw [hev]
+    exact plain_step cfg.pol s' v arg hg
+  | some t =>
+    simp only [htx] at hat ⊢
+    obtain ⟨hte, hg, hmf, hrc, hev⟩ := hat
+    obtain ⟨mid, ho, hr1, hr2⟩ := inv_open cfg.pol _ s' hinv hg
+    refine ⟨⟨mid, by rw [hmf]; exact ho, by rw [hrc]; exact hr1, by rw [hrc]; exact hr2⟩, ?_, ?_⟩
+    · intro hstop
+      have hstep := txn_step_done cfg s' t hg hstop
+      have hb : st.bytes cfg = Nq.Gen.txt_data_go ++ t.reply cfg := by
+        simp [Step.bytes, htx, Txn.bytes, hstop]
+      have hack := (C07_smtp_ack (t.d cfg) (t.qqx cfg) cfg.pol.now t.pid).1
+      refine ⟨by rw [hev, hstep], by rw [hev, hstep, hmf, hrc], hb, hack, ?_, ?_, ?_⟩
+      · rw [hev, hstep]
+        unfold closeReply
+        by_cases hq : t.qqx cfg = [] <;> simp [hq]
+      · intro hq
+        have hc := C07_content_smtp (dcfg cfg) t.helo t.mailfrom t.rcpts t.stream t.w t.e hte hstop hq
+        refine ⟨?_, hc.1, hc.2.1, hc.2.2.1, hc.2.2.2⟩
+        show Smtp.reply (t.d cfg) (t.qqx cfg) cfg.pol.now t.pid = _
+        rw [hq]; simp [Smtp.reply, ackLine]
+      · intro hcm
+        exact (C07_smtp_committed_ack (dcfg cfg) t.helo t.mailfrom t.rcpts t.stream t.w t.e cfg.pol.now t.pid hte hstop hcm).1
+    · intro hstop
+      obtain ⟨h1, h2, h3⟩ := txn_step_stopped cfg s' t hg hstop
+      refine ⟨?_, by rw [hev]; exact h1, by rw [hev]; exact h3, ?_, ?_⟩
+      · exact runFuel_halt_last cfg pre _ _ _ _ _ _ _ st post hr (by rw [hev]; exact h2)
+      · exact (C07_stopped_no_envelope t.w).2.2 (dcfg cfg) t.helo t.mailfrom (entries t.rcpts) t.stream hstop
+      · cases hst : (t.d cfg).stop with
+        | none => exact absurd hst hstop
+        | some ex =>
+          by_cases hy : (t.d cfg).stray = true
+          · right; simp [Step.bytes, htx, Txn.bytes, hst, hy]
+          · left; simp [Step.bytes, htx, Txn.bytes, hst, hy]
+
+/-- **C07_smtp_session_rcpt** (which recipients get into `rcptto`).  Anywhere in a connection, a RCPT is answered `250 ok`
+    — and thereby becomes one of the recipients `C07_smtp_session` speaks of — exactly when C08's policy predicate holds for the
+    events before it: a transaction is open (a MAIL answered 250, not discarded since), its sender is not barred by badmailfrom,
+    the argument parses to an address within the length limit, and RELAYCLIENT is set or the address matches
+    control/rcpthosts / morercpthosts (`SmtpPolicy.GateOK`; `MoreLower`: the cdb keys are lower-case, as qmail-newmrh writes them). -/
+theorem C07_smtp_session_rcpt (cfg : SmtpC07.Cfg) (hl : MoreLower cfg.pol) (w : Option Nat) (ends : List QEnd) (pids : List Nat)
+    (inp : Bytes) (pre : List Step) (st : Step) (post : List Step) (arg : Bytes)
+    (hr : SmtpC07.run cfg w ends pids inp = pre ++ st :: post) (hc : st.ev.1 = .rcpt arg) :
+    st.ev.2.replies = [.rcptok] ↔ GateOK cfg.pol (pre.map (·.ev)) arg := by
+  obtain ⟨s', hinv, hat⟩ := runFuel_split cfg (fun _ => True) trivial
+    pre _ {} [] none w ends pids inp st post (fun _ _ => trivial) (Nq.Lemmas.Smtp.inv_init cfg.pol) hr
+  simp only [List.nil_append] at hinv
+  unfold StepAt at hat
+  cases htx : st.txn with
+  | none =>
+    simp only [htx] at hat
+    obtain ⟨v, arg', _, hev⟩ := hat
+    rw [hev] at hc ⊢
+    cases v <;> simp [plainCmd] at hc
+    subst hc
+    exact Nq.Lemmas.Smtp.gate_inv cfg.pol hl _ s' arg' hinv
+  | some t =>
+    simp only [htx] at hat
+    rw [hat.2.2.2.2] at hc
+    simp [Txn.cmd] at hc
+
+/-- non-vacuity: two transactions on one connection (`MAIL FROM:<a>` `RCPT TO:<b>` `DATA` `.` twice, bare-LF command lines):
+    two queue runs, each with the sender and recipient of ITS transaction, both DATA terminated -/
+def exCfg : SmtpC07.Cfg := { pol := {}, peer := ⟨none, none, none, none, none⟩ }
+def exInp : Bytes :=
+  [77, 65, 73, 76, 32, 70, 82, 79, 77, 58, 60, 97, 62, 10, 82, 67, 80, 84, 32, 84, 79, 58, 60, 98, 62, 10, 68, 65, 84, 65, 10, 46, 13, 10,
+   77, 65, 73, 76, 32, 70, 82, 79, 77, 58, 60, 99, 62, 10, 82, 67, 80, 84, 32, 84, 79, 58, 60, 100, 62, 10, 68, 65, 84, 65, 10, 46, 13, 10]
+example : ((SmtpC07.txns (SmtpC07.run exCfg none [{}, { exit := 31 }] [7, 8] exInp)).map (fun t => (t.mailfrom, t.rcpts, (t.d exCfg).stop.isNone))) =
+    [([97], [[98]], true), ([99], [[100]], true)] := by decide
+example : ∀ e ∈ [({} : QEnd), { exit := 31 }], TextOK e.text ∨ e.text.length ≤ 2 := by
+  intro e he
+  simp only [List.mem_cons, List.not_mem_nil, or_false] at he
+  rcases he with rfl | rfl <;> exact Or.inr (by decide)
+
+/-- **C07_smtp_session_cut** (the connection is cut, or the message broken, anywhere before the terminator).  A queue run `t` of the
+    composed connection works on bytes the client really sent: `t.stream` — everything behind that DATA line — is a suffix of the
+    client's stream.  Its DATA counts as terminated exactly when C05's decoder `dblast` accepts those bytes (CR LF `.` CR LF reached, no
+    bare LF before it).  If it does not — the client went away at ANY byte before the end of the terminator, or sent a bare LF — then
+    this step is the last one of the connection, its event carries no acknowledgement and submits nothing, and the queue program of `t`
+    finds no complete envelope on descriptor 1.  (A cut in the command phase starts no queue run for the open transaction at all:
+    clause 2 of `C07_smtp_session`.) -/
+theorem C07_smtp_session_cut (cfg : SmtpC07.Cfg) (w : Option Nat) (ends : List QEnd) (pids : List Nat) (inp : Bytes)
+    (hends : ∀ e ∈ ends, TextOK e.text ∨ e.text.length ≤ 2)
+    (pre : List Step) (st : Step) (post : List Step) (t : Txn)
+    (hr : SmtpC07.run cfg w ends pids inp = pre ++ st :: post) (ht : st.txn = some t) :
+    t.stream <:+ inp ∧
+    ((t.d cfg).stop = none ↔ ∃ b r, Nq.SmtpIn.dblast t.stream = .accepted b r) ∧
+    ((¬ ∃ b r, Nq.SmtpIn.dblast t.stream = .accepted b r) →
+      post = [] ∧ st.ev.2.submit = none ∧ Reply.accepted ∉ st.ev.2.replies ∧ envComplete (t.q cfg).envPipe = false) := by
+  have hiff := data_stop_iff (dcfg cfg) t.helo t.mailfrom (entries t.rcpts) t.stream
+  refine ⟨?_, hiff, fun hn => ?_⟩
+  · exact runFuel_stream_suffix cfg _ _ _ _ _ _ _ st (by unfold SmtpC07.run at hr; rw [hr]; simp) t ht
+  · have hstop : (t.d cfg).stop ≠ none := fun h => hn (hiff.mp h)
+    have := (C07_smtp_session cfg w ends pids inp hends).2 pre st post hr
+    rw [ht] at this
+    obtain ⟨h1, h2, h3, h4, _⟩ := this.2.2 hstop
+    exact ⟨h1, h2, h3, h4⟩
+
+/-- non-vacuity: the second transaction of `exInp` cut after `DATA LF .` (the terminator's CR LF never arrives) -/
+example : ((SmtpC07.txns (SmtpC07.run exCfg none [] [7, 8] (exInp.take 66))).map (fun t => (t.mailfrom, (t.d exCfg).stop.isNone))) =
+    [([97], true), ([99], false)] := by decide
+
+/-- **C07_smtp_session_bytes** (no acknowledgement-shaped line without a committed queue run, on the bytes).  Let the greeting
+    (control/smtpgreeting, default control/me) be one line not beginning with `ok ` (`GreetOK`).  Then in the composed connection
+    the bytes written for a command line that starts no queue run, and for a DATA that is never terminated (`354 go ahead`, plus
+    the 451 of straynewline()), contain no line beginning with `250 ok `; and the reply to a terminated DATA whose `qmail_close`
+    answer is not "" does not begin with `250 `.  So a line `250 ok <time> qp <pid>` can only be the reply to a terminated DATA
+    whose own queue run reported success (`C07_smtp_session` (4)) — unless the queue program itself relays such a line after an LF
+    in its error text (outside qmail-queue.8; the text is copied verbatim). -/
+theorem C07_smtp_session_bytes (cfg : SmtpC07.Cfg) (w : Option Nat) (ends : List QEnd) (pids : List Nat) (inp : Bytes)
+    (hends : ∀ e ∈ ends, TextOK e.text ∨ e.text.length ≤ 2) (hg : GreetOK cfg.pol.greeting)
+    (pre : List Step) (st : Step) (post : List Step) (hr : SmtpC07.run cfg w ends pids inp = pre ++ st :: post) :
+    match st.txn with
+    | none => hasAckLine (st.bytes cfg) = false
+    | some t =>
+      ((t.d cfg).stop ≠ none → hasAckLine (st.bytes cfg) = false) ∧
+      ((t.d cfg).stop = none → t.qqx cfg ≠ [] → (t.reply cfg).take 4 ≠ [50, 53, 48, 32]) := by
+  cases htx : st.txn with
+  | none =>
+    simp only
+    obtain ⟨s', _, hat⟩ := runFuel_split cfg (fun _ => True) trivial
+      pre _ {} [] none w ends pids inp st post (fun _ _ => trivial) (Nq.Lemmas.Smtp.inv_init cfg.pol) hr
+    unfold StepAt at hat
+    simp only [htx] at hat
+    obtain ⟨v, arg, hgate, hev⟩ := hat
+    obtain ⟨r, hr1, hr2, hr3⟩ := plain_step_single cfg.pol s' v arg hgate
+    have : st.bytes cfg = render cfg.pol r := by
+      simp [Step.bytes, htx, hev, hr1]
+    rw [this]
+    exact render_no_ack cfg.pol hg r hr2 hr3
+  | some t =>
+    simp only
+    have hmain := (C07_smtp_session cfg w ends pids inp hends).2 pre st post hr
+    rw [htx] at hmain
+    refine ⟨fun hstop => ?_, fun hstop hq => ?_⟩
+    · obtain ⟨_, _, _, _, hb⟩ := hmain.2.2 hstop
+      rcases hb with hb | hb <;> rw [hb] <;> decide
+    · intro h4
+      exact hq ((hmain.2.1 hstop).2.2.2.1.mp h4)
+
+/-- the complement: with control/smtpgreeting = `ok 1 qp 2` the reply to HELO is itself acknowledgement-shaped -/
+example : hasAckLine (render { greeting := [111, 107, 32, 49, 32, 113, 112, 32, 50] } .helo) = true := by decide
+example : GreetOK [109, 101, 46, 101, 120, 97, 109, 112, 108, 101] := ⟨by decide, by decide⟩
+
+end smtp_session
 end Nq.Props.C07
